@@ -47,9 +47,11 @@ Geometry(c, pos) ==
         \cup If(\A k \in Rings(c) : AtRadius(c, pos, k), "X06.Radius")
         \cup If(\A k \in Rings(c) : SeamOK(c, pos, k), "X06.Seam")
         \cup If(\A k \in Rings(c) : RegularRing(c, pos, k), "X06.Regular")
+        \cup If(\A k \in TwistPairs(c) : NoTwist(c, pos, k), "X06.NoTwist")
     ELSE IF c.gen \in ShapeFamily THEN
         If(\A k \in PlaneRings(c) : OnPlane(c, pos, k), "X06.OnPlane")
         \cup If(\A k \in Rings(c) : StencilRigid(c, pos, k), "X06.Radius")
+        \cup If(\A k \in TwistPairs(c) : NoTwist(c, pos, k), "X06.NoTwist")
     ELSE IF c.gen = "line" THEN If(\A k \in Rings(c) : LineRing(c, pos, k), "X06.Ribbon")
     ELSE If(\A k \in Rings(c) : ScrewRing(c, pos, k), "X06.Screw")
 
@@ -127,7 +129,8 @@ Ext ==
            bad == ExtBad(ln)
        IN /\ Report(bad, [class |-> Class(ln.case), res |-> ln.res,
                           flip |-> IF "X06.Oriented" \in bad THEN FlipClass(ln.case, LTris(ln.case, ln.tris), ln.pos)
-                                   ELSE "none"])
+                                   ELSE "none",
+                          twist |-> IF "X06.NoTwist" \in bad THEN TwistClass(ln.case) ELSE "none"])
           /\ cnt' = ExtCount(ln)
     /\ AtEnd
     /\ l' = l + 1
@@ -135,7 +138,7 @@ Ext ==
 Rep ==
     /\ l <= Len(Trace) /\ Trace[l].k = "rep"
     /\ LET ln == Trace[l]
-       IN /\ Report(RepBad(ln), [class |-> "rep", res |-> ln.res, flip |-> "none"])
+       IN /\ Report(RepBad(ln), [class |-> "rep", res |-> ln.res, flip |-> "none", twist |-> "none"])
           /\ cnt' = RepCountUp(ln)
     /\ AtEnd
     /\ l' = l + 1
